@@ -101,6 +101,7 @@ fn dispatch(op: &str, args: &[&str]) -> String {
         "media_twice" => op_media_twice(args),
         "master_twice" => op_master_twice(args),
         "media_remove" => op_media_remove(args),
+        "media_set_mseq" => op_media_set_mseq(args),
         "eq_media" => op_eq::<Media>(args),
         "eq_master" => op_eq::<Master>(args),
         "laws" => laws::op_laws(args),
@@ -410,6 +411,22 @@ fn op_media_remove(args: &[&str]) -> String {
             let _ = x.segments.remove(index);
         });
     }
+    value_result::<Media>(&x, None, text.len())
+}
+
+/// `media_set_mseq TEXT N`: `MediaPlaylist::try_from(TEXT)`, then the public field
+/// `media_sequence` is set to `N` (a window renumbered by hand).  `badinput` | `panic`
+/// | `err` | `ok (mres …)` of the mutated value as `media_remove` prints it.
+fn op_media_set_mseq(args: &[&str]) -> String {
+    let (Some(text), Some(n)) = (text_arg(args, 0), num_arg::<usize>(args, 1)) else {
+        return BADINPUT.to_string();
+    };
+    let mut x = match guard(|| MediaPlaylist::try_from(text.as_str())) {
+        None => return PANIC.to_string(),
+        Some(Err(_)) => return ERR.to_string(),
+        Some(Ok(x)) => x,
+    };
+    x.media_sequence = n;
     value_result::<Media>(&x, None, text.len())
 }
 
